@@ -597,55 +597,4 @@ Proof.
               try reflexivity; try lia; try ltb_eq ]; fail).
 Qed.
 
-Lemma count_none : forall (l : list tid), length (filter (fun _ => false) l) = 0.
-Proof. induction l; simpl; auto. Qed.
-
-Ltac dmatch :=
-  repeat match goal with
-  | |- context [match ?x with _ => _ end] => destruct x
-  | H : context [match ?x with _ => _ end] |- _ => destruct x
-  end.
-
-Lemma InvE_init : InvE init.
-Proof.
-  constructor; unfold init; cbn [th qu flag sid nbest search]; intros.
-  - exists PhIdle. simpl. auto.
-  - dmatch; simpl; lia.
-  - dmatch; simpl; lia.
-  - dmatch; simpl; lia.
-  - dmatch; simpl; auto.
-  - dmatch; simpl in *; discriminate.
-  - unfold WorkersInv.npending, pendingb. cbn [th qu].
-    rewrite (count_ext _ (fun _ => false)); [rewrite count_none; dmatch; reflexivity|].
-    intros x _. dmatch; reflexivity.
-  - dmatch; simpl; lia.
-  - unfold acks in *; simpl in *; lia.
-  - dmatch; simpl in *; discriminate.
-  - simpl in *; tauto.
-  - dmatch; simpl; auto.
-  - simpl; auto.
-  - simpl in *; tauto.
-  - dmatch; simpl in *; discriminate.
-Qed.
-
-Theorem InvE_step : forall s lb s', InvE s -> lstep s lb = Some s' -> InvE s'.
-Proof.
-  intros s lb s' I H. constructor.
-  - eapply step_phase; eauto.
-  - eapply step_g1; eauto.
-  - eapply step_g2; eauto.
-  - eapply step_s1; eauto.
-  - eapply step_a1; eauto.
-  - eapply step_a2; eauto.
-  - eapply step_w1; eauto.
-  - eapply step_w2; eauto.
-  - eapply step_w3; eauto.
-  - eapply step_fwd; eauto.
-  - eapply step_snd; eauto.
-  - eapply step_pcs; eauto.
-  - eapply step_sc; eauto.
-  - eapply step_j2; eauto.
-  - eapply step_j3; eauto.
-Qed.
-
 End P.
